@@ -25,6 +25,8 @@ type Gen struct {
 	ConstBias int
 	// Big: allow constant ranges of about 10^6 elements
 	Big bool
+	// PtrMethods: calls of the pointer-receiver method PtrOnly may be generated
+	PtrMethods bool
 	// AllDynamic: the program will be compiled without a declared environment, so every variable is
 	// dynamically typed for the checker (matters for the exclusion of known finding F26)
 	AllDynamic bool
@@ -488,6 +490,9 @@ func (g *Gen) intCall(d int) *X {
 			return &X{K: "method", Name: "OrV", A: []*X{g.elemRecv(d - 1), o, g.Expr(TInt, d-1)}, Ty: TInt}
 		}},
 		{2, func() *X { return g.elemMethod(TInt, d) }},
+	}
+	if g.PtrMethods {
+		ps = append(ps, prod{4, func() *X { return Call("PtrOnly", TInt, g.Expr(TInt, d-1)) }})
 	}
 	if g.Calls {
 		ps = append(ps,
